@@ -847,25 +847,62 @@ func (r *Runner) collect(op *Op) {
 	if op.Lim >= 0 {
 		s = s.Limit(uint64(op.Lim))
 	}
-	e := ev{"ev": "collect", "h": op.H, "rev": op.Rev, "lim": op.Lim, "what": op.What}
+	e := ev{"ev": "collect", "h": op.H, "rev": op.Rev, "lim": op.Lim, "what": op.What, "n": op.N}
+	items := [][]interface{}{}
+	add := func(objs ...sod.Object) {
+		for _, o := range objs {
+			if o != nil {
+				items = append(items, []interface{}{r.slotOf(o.UUID()), r.project(o)})
+			}
+		}
+	}
 	switch op.What {
 	case "one":
 		o, err := s.One()
 		e["c"] = classify(err)
-		items := [][]interface{}{}
 		if err == nil {
-			items = append(items, []interface{}{r.slotOf(o.UUID()), r.project(o)})
+			add(o)
 		}
-		e["items"] = items
+	case "assignone":
+		var o sod.Object = r.proto()
+		err := s.AssignOne(&o)
+		e["c"] = classify(err)
+		if err == nil {
+			add(o)
+		}
+	case "assignunique":
+		// zero or exactly one result expected
+		var o sod.Object = r.proto()
+		err := s.AssignUnique(&o)
+		e["c"] = classify(err)
+		if err == nil {
+			add(o)
+		}
+	case "assign":
+		var objs []sod.Object
+		err := s.Assign(&objs)
+		e["c"] = classify(err)
+		if err == nil {
+			add(objs...)
+		}
+	case "expects", "expectszn":
+		// the number of results must be N (or, for expectszn, zero or N), otherwise collecting fails
+		if op.What == "expects" {
+			s = s.Expects(op.N)
+		} else {
+			s = s.ExpectsZeroOrN(op.N)
+		}
+		objs, err := s.Collect()
+		e["c"] = classify(err)
+		if err == nil {
+			add(objs...)
+		}
 	default:
 		objs, err := s.Collect()
 		e["c"] = classify(err)
-		items := [][]interface{}{}
-		for _, o := range objs {
-			items = append(items, []interface{}{r.slotOf(o.UUID()), r.project(o)})
-		}
-		e["items"] = items
+		add(objs...)
 	}
+	e["items"] = items
 	r.emit(e)
 }
 
